@@ -54,6 +54,9 @@ def base_summaries():
     S["*PartialOrd for dashu_int::ibig::IBig>::partial_cmp"] = lambda ev, a, fr: Adt("core::option::Option", "Some", [ordering(_cmp(_v(a[0]), _v(a[1])))], 1)
     S["*PartialOrd for dashu_int::ubig::UBig>::partial_cmp"] = lambda ev, a, fr: Adt("core::option::Option", "Some", [ordering(_cmp(_v(a[0]), _v(a[1])))], 1)
     S["*AbsOrd for dashu_int::ibig::IBig>::abs_cmp"] = lambda ev, a, fr: ordering(_cmp(abs(_v(a[0])), abs(_v(a[1]))))
+    # magnitude comparison between any pair of big integer types (AbsOrd<IBig> for UBig, AbsOrd<UBig> for IBig, ...)
+    S["* for dashu_int::ubig::UBig>::abs_cmp"] = lambda ev, a, fr: ordering(_cmp(abs(_v(a[0])), abs(_v(a[1]))))
+    S["* for dashu_int::ibig::IBig>::abs_cmp"] = lambda ev, a, fr: ordering(_cmp(abs(_v(a[0])), abs(_v(a[1]))))
     S["*as core::clone::Clone>::clone"] = lambda ev, a, fr: a[0]
     return S
 
